@@ -146,6 +146,16 @@ pub fn forests(thorough: bool) -> (Vec<Vec<V>>, Value) {
             fs.push(vec![a.clone(), b.clone()]);
         }
     }
+    // every number first, followed by every atom (a leading 00 byte is also a format byte in
+    // "AMF3-typed" RTMP bodies, so number-first sequences matter to C13)
+    for a in full.iter().filter(|v| matches!(v, V::Num(_))) {
+        for b in full.iter() {
+            if !matches!(b, V::Str(s) if s.len() > 1000) {
+                fs.push(vec![a.clone(), b.clone()]);
+                fs.push(vec![a.clone(), b.clone(), V::Str("x".into()), num(7.0)]);
+            }
+        }
+    }
     let rep3: Vec<V> = rep.iter().take(if thorough { 18 } else { 12 }).cloned().collect();
     for a in rep3.iter() {
         for b in rep3.iter() {
